@@ -151,7 +151,7 @@ def gen_reply_case(rnd, prev_key16):
     if rnd.random() < 0.2:
         headers.append((b"X-Dup", b"1"))
         headers.append((b"X-Dup", b"2"))
-    reason = rnd.choice([b"Switching Protocols", b"OK", b"Web Socket Protocol Handshake", b"x"])
+    reason = rnd.choice([b"Switching Protocols", b"OK", b"Web Socket Protocol Handshake", b"x", b"{reason} {0} %s", b"{"])
     if kind == "status":
         status = str(rnd.choice([100, 102, 200, 201, 204, 301, 302, 400, 401, 403, 404, 426, 500, 503, 599, 110, 111, 191, 1010 % 1000])).encode()
         if status == b"101":
@@ -161,7 +161,7 @@ def gen_reply_case(rnd, prev_key16):
         headers = [h for h in headers if h[0] != b"Upgrade"]
         expect = "rejected"
     elif kind == "bad_upgrade":
-        headers = [(n, rnd.choice([b"websockets", b"h2c", b"web socket", b""])) if n == b"Upgrade" else (n, v) for n, v in headers]
+        headers = [(n, rnd.choice([b"websockets", b"h2c", b"web socket", b"", b"{websocket}", b"{}", b"websocket}", b"{0}", b"%s websocket %d", b"{upgrade!r:>{width}}"])) if n == b"Upgrade" else (n, v) for n, v in headers]
         expect = "rejected"
     elif kind == "no_accept":
         headers = [h for h in headers if h[0] != b"Sec-WebSocket-Accept"]
@@ -185,7 +185,7 @@ def gen_reply_case(rnd, prev_key16):
         elif kind == "accept_trunc":
             bad = good[:rnd.choice([0, 1, 27, 26])]
         elif kind == "accept_extra":
-            bad = good + rnd.choice([b"=", b"A", b"x y"])
+            bad = good + rnd.choice([b"=", b"A", b"x y", b"{}", b"{0!r}", b"%d"])
         else:
             bad = good.swapcase() if rnd.random() < 0.5 else case_variant(rnd, good)
         if bad == good:
